@@ -12,7 +12,7 @@ POOL_MAX = 9
 
 
 class Obj:
-    __slots__ = ('kind', 'ref', 'dense', 'scale', 'herm', 'tag', 'traj', 'uid', 'norm2', 'retired', 'version', 'why')
+    __slots__ = ('kind', 'ref', 'dense', 'scale', 'herm', 'tag', 'traj', 'uid', 'norm2', 'retired', 'version', 'why', 'prec', 'longp', 'narrowq')
 
     def __init__(self, kind, ref, tag, uid):
         self.kind = kind
@@ -27,6 +27,9 @@ class Obj:
         self.retired = False
         self.version = 0
         self.why = None
+        self.prec = 1.0
+        self.longp = False
+        self.narrowq = False
 
 
 def snap_q(q):
@@ -48,6 +51,23 @@ def arrays_of(r):
     return out
 
 
+SINGLE = (np.float32, np.complex64)
+# operations in which single / extended precision objects take part (tolerances scaled by Obj.prec there)
+LOWPREC_OK = {'vdot', 'norm', 'op_avg', 'op_inner', 'op_density', 'as_vector', 'as_matrix', 'add', 'sub', 'matmul', 'apply',
+              'orthonormalize', 'deepcopy', 'share_copy', 'zero_qnumbers', 'new_mps', 'new_mpo'}
+LONG_OK = LOWPREC_OK - {'orthonormalize'}       # LAPACK has no extended precision: QR / SVD of longdouble raise in numpy
+
+
+# objects whose charge labels are held in one narrow / unsigned integer type: only where the library keeps that type to itself
+NARROWQ_OK = {'orthonormalize', 'compress', 'as_vector', 'as_matrix', 'norm', 'deepcopy', 'new_mps', 'new_mpo'}
+NARROW_TYPES = (np.uint8, np.uint16, np.uint32, np.uint64, np.int8, np.int16)
+
+
+def dtype_prec(arrs):
+    """Tolerance factor relative to double precision: 1 for double / extended, 1e6 for single precision tensors."""
+    return 1e6 if any(isinstance(a, np.ndarray) and a.dtype.type in SINGLE for a in arrs) else 1.0
+
+
 class TNCore(SessionBase):
     world = 'tn'
 
@@ -66,6 +86,12 @@ class TNCore(SessionBase):
 
     def pick(self, sel, kind=None, pred=None):
         c = self.live(kind, pred)
+        if self.opkind not in LOWPREC_OK:
+            c = [o for o in c if o.prec == 1.0 and not o.longp]
+        elif self.opkind not in LONG_OK:
+            c = [o for o in c if not o.longp]
+        if self.opkind not in NARROWQ_OK:
+            c = [o for o in c if not o.narrowq]
         if not c:
             return None
         return c[int(sel) % len(c)]
@@ -120,7 +146,11 @@ class TNCore(SessionBase):
             o.herm = bool(np.linalg.norm(M - M.conj().T) <= 1e-12 * max(nm, 1e-300)) and nm > 0
             o.norm2 = None
         o.scale = dn.abs_scale(r.A)
-        if not (1e-140 <= o.scale <= 1e140) and np.any(o.dense):
+        o.prec = max(o.prec, dtype_prec(r.A))           # sticky: a result computed from single precision data stays "single"
+        o.longp = o.longp or any(a.dtype.type in (np.longdouble, np.clongdouble) for a in r.A)
+        o.narrowq = any(isinstance(q, np.ndarray) and q.dtype.type in NARROW_TYPES for q in [r.qd] + list(r.qD))
+        lo, hi = (1e-140, 1e140) if o.prec == 1.0 else (1e-15, 1e15)      # squares must stay normal numbers of the working precision
+        if not (lo <= o.scale <= hi) and np.any(o.dense):
             # the square of the overall magnitude is not representable: norms and inner products of the object as a whole
             # are outside double precision (long chains of uniformly tiny / huge tensors); nothing can be judged on it
             o.retired = True
@@ -141,6 +171,10 @@ class TNCore(SessionBase):
             self.skip('result_of_unrepresentable_overall_magnitude')
         else:
             self.check(False, props, 'object_unusable', what)
+
+    @staticmethod
+    def P(*objs):
+        return max([o.prec for o in objs if o is not None] + [1.0])
 
     def opnorm2(self, o):
         if o.norm2 is None:
@@ -185,7 +219,7 @@ class TNCore(SessionBase):
                 ok = False
                 continue
             qs = [qdv, ql, -qr_] if nphys == 1 else [qdv, -qdv, ql, -qr_]
-            off = dn.offsupport_max(A, qs)
+            off = dn.offsupport_max(A, qs, dn.label_modulus(r.qd, r.qD[i], r.qD[i + 1]))
             ok &= self.check(off == 0.0, 'C02', 'block_sparse', lambda: f'{what}: A[{i}] has entry {off!r} off the charge-conserving support')
         return ok
 
@@ -224,7 +258,7 @@ class TNCore(SessionBase):
                 continue
             saved.append((a, a.copy()))
             if np.issubdtype(a.dtype, np.integer):
-                a[...] = a + 7919
+                a[...] = a + (7919 if a.dtype.itemsize >= 4 else 37)
             else:
                 a[...] = a * 3 + 7
         # list containers must be private too
